@@ -413,3 +413,123 @@ def fam_fn_codec(rng, n, prefix):
             name = rng.choice(["extract_vp9_config", "is_vp9_keyframe", "is_valid_vp9_frame"])
             out.append(fn_case("%s%d" % (prefix, i), name, hx(d)))
     return out
+
+
+# ---------- rejection matrix (C05/C04/C03/C06): every rejection reason x position x codec ----------
+def reject_variants(rng, cfg, t_ok, last_v_t, last_a_t):
+    """calls that are rejected for exactly one reason each; timestamps chosen so that the
+    timing checks pass whenever the reason is about the payload"""
+    codec = cfg["codec"]
+    a = cfg["audio"] if has_audio(cfg) else None
+    later_v = last_v_t + rng.choice([0.25, 1.0, 3.0])
+    later_a = max(last_a_t, last_v_t) + rng.choice([0.125, 0.5, 2.0])
+    out = [
+        ("v-empty", ["wv", fb(later_v), "-", 0]),
+        ("v-nan", ["wv", "%x" % NAN, hx(video_delta(rng, codec)), 0]),
+        ("v-neg", ["wv", fb(-1.0), hx(video_delta(rng, codec)), 0]),
+        ("v-old", ["wv", fb(last_v_t), hx(video_delta(rng, codec)), 0]),
+        ("v-subtick", ["wv", fb(last_v_t + 1e-9), hx(video_delta(rng, codec)), 0]),
+        ("v-gap", ["wv", fb(last_v_t + 50000.0), hx(video_delta(rng, codec)), 0]),
+        ("vd-dtsold", ["wvd", fb(later_v), fb(last_v_t), hx(video_delta(rng, codec)), 0]),
+        ("vd-dtsinf", ["wvd", fb(later_v), "%x" % PINF, hx(video_delta(rng, codec)), 0]),
+        ("vd-cts", ["wvd", fb(later_v + 30000.0), fb(later_v), hx(video_delta(rng, codec)), 0]),
+        ("ev-empty", ["ev", "-", "21"]),
+    ]
+    if a:
+        good = audio_frame(rng, a)
+        bad_payloads = [rng.bytes(rng.range(1, 10))]
+        if a != "opus":
+            g = bytearray(good)
+            g[0] = 0xFE
+            bad_payloads.append(bytes(g))                      # broken syncword
+            g = bytearray(good); g[2] = (g[2] & 0xC3) | (13 << 2); bad_payloads.append(bytes(g))  # bad rate index
+            bad_payloads.append(good[:-1])                     # truncated
+            bad_payloads.append(good[:7])                      # header only
+        else:
+            bad_payloads.append(bytes([0x03]))                 # code 3 without count byte
+            bad_payloads.append(bytes([0x03, 0x00]))           # zero frames
+        for k, p in enumerate(bad_payloads):
+            out.append(("a-bad%d" % k, ["wa", fb(later_a), hx(p)]))
+        out += [
+            ("a-empty", ["wa", fb(later_a), "-"]),
+            ("a-old", ["wa", fb(max(last_a_t - 0.01, 0.0)), hx(good)]) if last_a_t > 0.02 else ("a-neg", ["wa", fb(-0.5), hx(good)]),
+            ("a-inf", ["wa", "%x" % PINF, hx(good)]),
+            ("a-gap", ["wa", fb(later_a + 50000.0), hx(good)]),
+            ("ea-bad", ["ea", hx(rng.bytes(3)), "400"]),
+        ]
+    else:
+        out.append(("a-noaudio", ["wa", fb(later_v), hx(audio_frame(rng, "aac-lc"))]))
+    return out
+
+
+def fam_reject_matrix(rng, n, prefix):
+    out = []
+    k = 0
+    while len(out) < n:
+        cfg = rand_cfg(rng, audio=rng.choice(["none-cfg", "aac-lc", "aac-he", "opus", "opus"]), dims=(640, 480),
+                       meta=rng.choice([0, 0, 5]))
+        codec = cfg["codec"]
+        nv = rng.range(2, 4)
+        vt = [0.5 + i * rng.choice([1 / 30.0, 0.04]) for i in range(nv)]
+        na = rng.range(2, 3) if has_audio(cfg) else 0
+        at = [0.5 + i * rng.choice([0.021, 0.02, 0.033]) for i in range(na)]
+        base = [["wv", fb(vt[0]), hx(video_key(rng, codec)), 1]]
+        rest = [(t, ["wv", fb(t), hx(video_delta(rng, codec)), 0]) for t in vt[1:]] + \
+               [(t, ["wa", fb(t), hx(audio_frame(rng, cfg["audio"]))]) for t in at]
+        rest.sort(key=lambda x: x[0])
+        seq = base + [o for _, o in rest]
+        variants = reject_variants(rng, cfg, 0.0, vt[-1], at[-1] if at else 0.0)
+        name, bad = rng.choice(variants)
+        pos = rng.choice(["first", "middle", "last", "last", "last2"])
+        c = Case("%s%d_%s_%s" % (prefix, k, name, pos), "mux")
+        k += 1
+        emit_cfg(c, cfg, rng)
+        if pos == "first":
+            # before anything is accepted: use the generic (first-frame) forms
+            first_bad = rng.choice([["wv", fb(0.5), hx(video_delta(rng, codec)), 0],       # not a keyframe
+                                    ["wv", fb(0.5), hx(rng.bytes(9)), 1],                   # no config
+                                    ["wa", fb(0.5), hx(audio_frame(rng, "aac-lc"))],        # audio before video
+                                    ["wv", fb(0.5), "-", 1]])
+            ops = [first_bad] + seq
+        elif pos == "middle":
+            # rejected call in the middle: its timestamps refer to the end, so rebuild for the prefix
+            cut = rng.range(1, len(seq) - 1)
+            vts = [bits_f64(int(o[1], 16)) for o in seq[:cut] if o[0] == "wv"]
+            ats = [bits_f64(int(o[1], 16)) for o in seq[:cut] if o[0] == "wa"]
+            vmid = reject_variants(rng, cfg, 0.0, vts[-1], ats[-1] if ats else 0.0)
+            # keep only variants that cannot make LATER valid frames invalid: fine, they are all rejected
+            nm, bad2 = rng.choice([v for v in vmid if not v[0].endswith("gap")] or vmid)
+            ops = seq[:cut] + [bad2] + seq[cut:]
+        elif pos == "last":
+            ops = seq + [bad]
+        else:
+            ops = seq + [bad, rng.choice(variants)[1]]
+        for o in ops:
+            c.o(*o)
+        c.o("fin", 0)
+        out.append(c)
+    return out
+
+
+# ---------- ADTS frame-length boundaries (C01/C14/C04): every bit of the 13-bit length ----------
+def fam_adts_lengths(rng, n, prefix):
+    out = []
+    lens = [1, 2, 7, 8, 9, 255, 256, 257, 1023, 1024, 2047, 2048, 2049, 4087, 4088, 4089, 4095, 4096, 4097, 6000, 8182, 8184]
+    for i in range(n):
+        cfg = rand_cfg(rng, audio=rng.choice(["aac-lc", "aac-main", "aac-hev2"]), dims=(640, 480), meta=0)
+        c = Case("%s%d" % (prefix, i), "mux")
+        emit_cfg(c, cfg, rng)
+        c.o("wv", fb(0.0), hx(video_key(rng, cfg["codec"])), 1)
+        t = 0.0
+        for _ in range(rng.range(1, 3)):
+            pa = rng.chance(3, 4)
+            L = rng.choice(lens)
+            L = min(L, 8191 - (7 if pa else 9))
+            fr = adts(rng, payload_len=L, protection_absent=pa, extra_tail=rng.choice([0, 0, 1, 5]))
+            if rng.chance(1, 6):
+                fr = fr[:-1 - rng.below(3)]     # truncated: must be rejected
+            c.o("wa", fb(t), hx(fr))
+            t += 0.02
+        c.o("fin", 0)
+        out.append(c)
+    return out
